@@ -91,22 +91,50 @@ func VerifC20_Filter() {
 
 // ---- O2: drain, order, merging of consecutive identical lines ----
 
+
+// one call site for plain and traced lines: a nil tracer falls back to plain
+// logging, so both kinds share message, level, file and line
+func c20Via(tr *ContextTracer, warning bool, msg string) {
+	if warning {
+		tr.Warning(msg)
+	} else {
+		tr.Info(msg)
+	}
+}
+
 func VerifC20_OrderAndMerge() {
 	rt.SchedYieldOnly(true)
 	c20Start()
 	SetLogLevel(TraceLevel)
-	k := rt.Len("k", 0, 4)
+	maxK := 3
+	if rt.Thorough() {
+		maxK = 4
+	}
+	k := rt.Len("k", 0, maxK)
 	type in struct {
-		msg   string
-		level Severity
+		msg     string
+		warning bool
+		traced  bool // submitted through a context tracer (never merged)
+		extra   int  // further lines collected by that tracer
+	}
+	kinds := []in{
+		{"a", false, false, 0}, {"b", false, false, 0}, {"a", true, false, 0},
+		{"a", false, true, 0}, {"a", false, true, 1}, {"b", false, true, 0},
 	}
 	var ins []in
 	for i := 0; i < k; i++ {
 		tag := "l" + string(rune('0'+i))
-		msg := []string{"a", "b"}[rt.Choice(tag+".msg", 2)]
-		level := []Severity{InfoLevel, WarningLevel}[rt.Choice(tag+".level", 2)]
-		ins = append(ins, in{msg, level})
-		c20Emit(level, msg)
+		l := kinds[rt.Choice(tag+".kind", len(kinds))]
+		ins = append(ins, l)
+		var tr *ContextTracer
+		if l.traced {
+			_, tr = AddTracer(context.Background())
+			if l.extra == 1 {
+				tr.Debug("collected")
+			}
+		}
+		c20Via(tr, l.warning, l.msg)
+		tr.Submit()
 		if rt.Bool(tag + ".pause") {
 			rt.Quiesce(time.Second) // the writer may run between two lines
 		}
@@ -116,9 +144,16 @@ func VerifC20_OrderAndMerge() {
 	// expanding the output (line repeated 1+duplicates times) gives the input sequence
 	pos := 0
 	for _, o := range c20Got {
+		if o.tracer {
+			rt.Assert(o.duplicates == 0, "order/tracer-submission-never-merged")
+		}
 		for r := uint64(0); r <= o.duplicates; r++ {
 			if pos < len(ins) {
-				rt.Assert(ins[pos].msg == o.msg && ins[pos].level == o.level, "order/output-is-input-order-with-adjacent-equal-lines-merged")
+				rt.Assert(ins[pos].msg == o.msg && ins[pos].warning == (o.level == WarningLevel), "order/output-is-input-order-with-adjacent-equal-lines-merged")
+				rt.Assert(ins[pos].traced == o.tracer, "order/plain-and-traced-lines-not-confused")
+				if o.tracer {
+					rt.Assert(o.traceLines == ins[pos].extra, "order/tracer-submission-keeps-its-collected-lines")
+				}
 			}
 			pos++
 		}
